@@ -165,7 +165,8 @@ def is_facet_inwards(face, faces):
     orient /= np.linalg.norm(orient)  # for single facet numpy is fine
 
     # create a check point by displacing the facet center in facet orientation direction
-    eps = 1e-5  # unfortunately this must be quite a 'large' number :(
+    # displacement relative to the mesh size, so that the result does not depend on the length unit
+    eps = 1e-5 * np.max(np.ptp(faces.reshape((-1, 3)), axis=0))
     check_point = face.mean(axis=0) + orient * eps
 
     # find out if first point is inwards
@@ -475,6 +476,11 @@ def mask_inside_trimesh(points: np.ndarray, faces: np.ndarray) -> np.ndarray:
     Method: ray-tracing.
     Faces must form a closed mesh for this to work.
     """
+    # make dimensionless: all tolerances below assume a mesh size of order 1
+    scale = np.max(np.ptp(faces.reshape((-1, 3)), axis=0))
+    if scale > 0:
+        points = points / scale
+        faces = faces / scale
     vertices = faces.reshape((-1, 3))
 
     # test-points inside of enclosing box
